@@ -134,6 +134,15 @@ def _early_reads(m, node, depth=0):
     return out
 
 
+def _reads_bar(node, names):
+    return any((isinstance(a, ast.Attribute) and a.attr == 'xbar') or (isinstance(a, ast.Name) and a.id in names) for a in ast.walk(node))
+
+
+def _reads_x(node, names):
+    return any((isinstance(a, ast.Attribute) and a.attr == 'x' and 'dependentFunctionList' in norm(a.value))
+               or (isinstance(a, ast.Name) and a.id in names) for a in ast.walk(node))
+
+
 def rule_drv_order(ctx):
     r = RuleResult('R-drv-order', 'on every returning path of each derivative driver: forward evaluation, then (reverse '
                                   'drivers) the reverse sweep, then the read of xbar / x that forms the result; value-carrying '
@@ -151,6 +160,7 @@ def rule_drv_order(ctx):
             pf = pb = None
             early = []
             seq = []
+            bar_names, x_names = set(), set()
             for i, st in enumerate(path):
                 node = st[1] if isinstance(st, tuple) else st
                 if pf is None:
@@ -159,15 +169,28 @@ def rule_drv_order(ctx):
                     if not any(k == 'pushforward' for k, _, _ in evs):
                         pre = _early_reads(m, node)
                     early.extend(pre)
+                had_pf, had_pb = pf is not None, pb is not None
                 for k, c, chain in _stmt_sweeps(m, node):
                     seq.append(k)
                     if k == 'pushforward' and pf is None:
                         pf = len(seq)
                     if k == 'pullback' and pb is None:
                         pb = len(seq)
+                # locals that hold the result: `xbar = self.independentFunctionList[0].xbar` after the reverse sweep,
+                # `y = self.dependentFunctionList[0].x` after the forward evaluation
+                if isinstance(node, ast.Assign) and not isinstance(st, tuple):
+                    tg = [t_.id for t_ in node.targets if isinstance(t_, ast.Name)]
+                    if had_pb and _reads_bar(node.value, bar_names):
+                        bar_names.update(tg)
+                    else:
+                        bar_names.difference_update(tg)
+                    if had_pf and _reads_x(node.value, x_names):
+                        x_names.update(tg)
+                    else:
+                        x_names.difference_update(tg)
             ret = stmts[-1]
-            reads_bar = any(isinstance(a, ast.Attribute) and a.attr == 'xbar' for a in ast.walk(ret))
-            reads_x = any(isinstance(a, ast.Attribute) and a.attr == 'x' and 'dependentFunctionList' in norm(a.value) for a in ast.walk(ret))
+            reads_bar = _reads_bar(ret, bar_names)
+            reads_x = _reads_x(ret, x_names)
             key = '%s:path%d' % (name, n_paths)
             probs = []
             if pf is None:
@@ -485,11 +508,18 @@ def _layout_of(expr_or_stmt, P='P', M='M'):
                 shp = args[-1] if args else None
                 if isinstance(shp, ast.BinOp) and isinstance(shp.op, ast.Add):
                     shp = shp.left
+                # the reshaped array is one coefficient (`ybar.data[0].reshape((P, M, M))`): no leading D axis
+                recv = c.func.value if isinstance(c.func, ast.Attribute) and not d.startswith('numpy.') else (args[0] if len(args) >= 2 else None)
+                one = False
+                if isinstance(recv, ast.Subscript):
+                    i0 = recv.slice.elts[0] if isinstance(recv.slice, ast.Tuple) and recv.slice.elts else recv.slice
+                    one = isinstance(i0, ast.Constant) and isinstance(i0.value, int)
                 if isinstance(shp, ast.Tuple) and len([e for e in shp.elts if not isinstance(e, ast.Starred)]) >= 3:
                     names = [norm(e) for e in shp.elts if not isinstance(e, ast.Starred)][:3]
-                    if names[1:] == [P, M]:
+                    pair = names[:2] if one else names[1:]
+                    if pair == [P, M]:
                         return 'BLOCK'
-                    if names[1:] == [M, P]:
+                    if pair == [M, P]:
                         return 'INTERLEAVED'
             if last == 'repeat' and len(c.args) >= 2:
                 if norm(c.args[1]) == M:
@@ -527,11 +557,33 @@ def rule_drv_layout(ctx):
         return isinstance(t, ast.Call) and isinstance(t.func, ast.Name) and t.func.id == 'isinstance' and len(t.args) == 2 \
             and norm(t.args[0]) == xpar and norm(t.args[1]).split('.')[-1] == 'UTPM'
 
-    br = None
-    for n in walk_no_nested(fi.node):
-        if isinstance(n, ast.If) and is_utpm_test(n.test) and any(isinstance(x_, ast.Call) and isinstance(x_.func, ast.Attribute) and x_.func.attr == 'pullback'
-                                                                  for b_ in n.body for x_ in ast.walk(b_)):
-            br = n.body
+    def truth(t):
+        if is_utpm_test(t):
+            return True
+        if isinstance(t, ast.UnaryOp) and isinstance(t.op, ast.Not):
+            v = truth(t.operand)
+            return None if v is None else not v
+        return None
+
+    seen_test = [False]
+
+    def specialise(body):
+        """the statements executed for a Taylor-polynomial argument: decided tests select their arm, whatever follows a
+        return/raise is dropped (if/else form and early-return form read alike)"""
+        out = []
+        for st in body:
+            if isinstance(st, ast.If) and truth(st.test) is not None:
+                seen_test[0] = True
+                out.extend(specialise(st.body if truth(st.test) else st.orelse))
+            else:
+                out.append(st)
+            if out and isinstance(out[-1], (ast.Return, ast.Raise)):
+                break
+        return out
+    br = specialise(fi.node.body)
+    if not seen_test[0] or not any(isinstance(x_, ast.Call) and isinstance(x_.func, ast.Attribute) and x_.func.attr == 'pullback'
+                                   for b_ in br for x_ in ast.walk(b_)):
+        br = None
     if br is None:
         r.unknown(fi.site(), 'UTPM branch of CGraph.jacobian not found')
         return r
@@ -556,6 +608,22 @@ def rule_drv_layout(ctx):
         if isinstance(st, ast.Assign) and len(st.targets) == 1 and isinstance(st.targets[0], ast.Name) and 'dependentFunctionList' in norm(st.value) \
                 and norm(st.value).endswith('.size'):
             Mn = st.targets[0].id
+    # views of the replicated input / the seed: `tmp_blocks = tmp.reshape((D, P, M) + shp)` - a store through the view
+    # is a store into its base, laid out as the view says
+    views = {}
+    for _ in range(3):
+        for st in ast.walk(holder):
+            if isinstance(st, ast.Assign) and len(st.targets) == 1 and isinstance(st.targets[0], ast.Name) \
+                    and isinstance(st.value, (ast.Subscript, ast.Attribute, ast.Call)) and not (
+                        isinstance(st.value, ast.Call) and not (isinstance(st.value.func, ast.Attribute)
+                                                                and st.value.func.attr in ('reshape', 'transpose', 'view', 'ravel', 'swapaxes', 'squeeze'))):
+                bs = set(_store_bases(st.value))
+                root = set()
+                for b_ in bs:
+                    root |= views[b_][0] if b_ in views else ({b_} if b_ in (fwd_names | bar_names) else set())
+                if root and st.targets[0].id not in (fwd_names | bar_names):
+                    lay_v = _layout_of(st, Pn, Mn) or next((views[b_][1] for b_ in bs if b_ in views and views[b_][1]), None)
+                    views[st.targets[0].id] = (root, lay_v)
     parts = {}
     for st in ast.walk(holder):
         if not isinstance(st, (ast.Assign, ast.AugAssign, ast.Expr, ast.Return)):
@@ -579,6 +647,12 @@ def rule_drv_layout(ctx):
         if not bases:
             continue
         lay = _layout_of(st, Pn, Mn)
+        if isinstance(st, ast.Assign) and len(st.targets) == 1 and isinstance(st.targets[0], ast.Name) and st.targets[0].id in views:
+            continue        # the definition of a view stores nothing
+        via = [b_ for b_ in bases if b_ in views]
+        if via:
+            lay = lay or next((views[b_][1] for b_ in via if views[b_][1]), None)
+            bases = (bases - set(via)) | set().union(*[views[b_][0] for b_ in via])
         if lay is None:
             continue
         if bases & bar_names:
@@ -729,13 +803,34 @@ def rule_rec_operands(ctx):
     return r
 
 
-def unwrap_maps(fn_node, src):
+def _unwrap_helper(model, call, v):
+    """`cls._get_val(v)` with a method of Function whose body is `x.x if isinstance(x, <node class>) else x`"""
+    if model is None or not (isinstance(call, ast.Call) and isinstance(call.func, ast.Attribute) and isinstance(call.func.value, ast.Name)
+                             and call.func.value.id in ('cls', 'self', 'Function') and len(call.args) == 1 and not call.keywords
+                             and norm(call.args[0]) == v):
+        return False
+    from .model import _as_expression
+    h = model.lookup_method('Function', call.func.attr)
+    if h is None or len(h.value_params()) != 1:
+        return False
+    body = list(h.node.body)
+    if body and isinstance(body[0], ast.Expr) and isinstance(body[0].value, ast.Constant) and isinstance(body[0].value.value, str):
+        body = body[1:]
+    e = _as_expression(body)
+    p = h.value_params()[0]
+    return isinstance(e, ast.IfExp) and norm(e.body) == p + '.x' and norm(e.orelse) == p \
+        and isinstance(e.test, ast.Call) and norm(e.test.func) == 'isinstance' and norm(e.test.args[0]) == p
+
+
+def unwrap_maps(fn_node, src, model=None):
     """lists built in fn_node as the elementwise map  v -> (v.x if v is a node else v)  of the sequence `src`:
     {list name: 'fwd' | 'rev' | 'other'}.  Recognised: `L = [v.x if isinstance(v, C) else v for v in src]` and
     `for v in src: if isinstance(v, C): L.append(v.x) else: L.append(v)` (any of the full-iteration idioms of seq_iteration)."""
     out = {}
 
     def is_unwrap(e, v):
+        if _unwrap_helper(model, e, v):
+            return True
         return isinstance(e, ast.IfExp) and norm(e.body) == v + '.x' and norm(e.orelse) == v \
             and isinstance(e.test, ast.Call) and norm(e.test.func) == 'isinstance' and norm(e.test.args[0]) == v
 
@@ -795,7 +890,7 @@ def rule_rec_same(ctx):
     # args extracted from Fargs in order: the list passed as *args to func is the elementwise map of Fargs
     calls = [c for c in walk_no_nested(fpf.node) if isinstance(c, ast.Call) and isinstance(c.func, ast.Name) and c.func.id == 'func']
     starred = {norm(a.value) for c in calls for a in c.args if isinstance(a, ast.Starred)}
-    maps = unwrap_maps(fpf.node, 'Fargs')
+    maps = unwrap_maps(fpf.node, 'Fargs', m)
     good = [k for k, v in maps.items() if v == 'fwd' and k in starred]
     wrong = [k for k, v in maps.items() if v != 'fwd' and k in starred]
     if good and not wrong:
